@@ -28,7 +28,10 @@ EntrySteps(fn, arg) ==
   \o [i \in DOMAIN Externals(fn) |-> B(Externals(fn)[i], ExtBase + ExtIndex(Externals(fn)[i]) - 1, {}, TRUE, TRUE, "ext")]
   \o [i \in DOMAIN Facts(fn).params |->
         B(Facts(fn).params[i].name, arg, ToSet(Facts(fn).params[i].cats), TRUE, TRUE, "")]
-EndLoop(ls) == IF ls = 2 THEN << B("#endloop_i", TrueV, {}, FALSE, FALSE, "") >> ELSE <<>>
+\* loops of one activation: sequence of [var, st] (st: 1 = open, between iterations; 2 = inside an iteration), innermost last
+EndOne(lp) == IF lp.st = 2 THEN << B("#endloop_" \o lp.var, TrueV, {}, FALSE, FALSE, "") >> ELSE <<>>
+RECURSIVE EndLoop(_)
+EndLoop(ls) == IF ls = <<>> THEN <<>> ELSE EndOne(ls[Len(ls)]) \o EndLoop(SubSeq(ls, 1, Len(ls) - 1))
 \* activations popped by an exception raised in the innermost one: up to and including the innermost catch
 RaisePopCount(A, st) ==
   LET c == {i \in DOMAIN st : A[st[i]].catch} IN
@@ -182,7 +185,7 @@ Step ==
                 A2 == Append(acts, a)
                 st2 == Append(stack, Len(A2))
                 S == Process(A2, st2, EntrySteps(E.fn, E.val))
-            IN /\ acts' = S.A /\ stack' = st2 /\ loops' = Append(loops, 0) /\ fails' = S.fails
+            IN /\ acts' = S.A /\ stack' = st2 /\ loops' = Append(loops, <<>>) /\ fails' = S.fails
                /\ UNCHANGED <<pend, lastret, lastfall>>
        [] E.ev \in {"bind", "ann"} ->
             LET cats == IF E.ev = "ann" THEN ToSet(Facts(acts[Top(stack)].fn).ann[E.var]) ELSE {}
@@ -198,21 +201,49 @@ Step ==
        [] E.ev = "seen" ->
             /\ fails' = NoDlv(IF E.val = pend THEN fails ELSE AddFail(fails, "DataFlow", ""))
             /\ UNCHANGED <<acts, stack, loops, pend, lastret, lastfall>>
-       [] E.ev = "loop" ->
-            /\ loops' = [loops EXCEPT ![Len(loops)] = 1] /\ fails' = NoDlv(fails)
+       [] E.ev \in {"loop", "sloop"} ->
+            /\ loops' = [loops EXCEPT ![Len(loops)] = Append(@, [var |-> IF E.ev = "loop" THEN "i" ELSE E.var, st |-> 1])]
+            /\ fails' = NoDlv(fails)
             /\ UNCHANGED <<acts, stack, pend, lastret, lastfall>>
        [] E.ev = "iter" ->
-            LET S == Process(acts, stack, << B("#loop_i", TrueV, {}, FALSE, FALSE, ""), B("i", E.val, {}, TRUE, TRUE, "") >>)
-            IN /\ acts' = S.A /\ fails' = S.fails /\ loops' = [loops EXCEPT ![Len(loops)] = 2]
+            LET ls == loops[Len(loops)]  lp == ls[Len(ls)]
+                S == Process(acts, stack, << B("#loop_" \o lp.var, TrueV, {}, FALSE, FALSE, ""), B(lp.var, E.val, {}, TRUE, TRUE, "") >>)
+            IN /\ acts' = S.A /\ fails' = S.fails /\ loops' = [loops EXCEPT ![Len(loops)][Len(ls)].st = 2]
                /\ UNCHANGED <<stack, pend, lastret, lastfall>>
        [] E.ev \in {"next", "cont", "brk"} ->
-            LET S == Process(acts, stack, EndLoop(2))
+            LET ls == loops[Len(loops)]  lp == ls[Len(ls)]
+                S == Process(acts, stack, EndOne(lp))
             IN /\ acts' = S.A /\ fails' = S.fails
-               /\ loops' = [loops EXCEPT ![Len(loops)] = IF E.ev = "brk" THEN 0 ELSE 1]
+               /\ loops' = [loops EXCEPT ![Len(loops)] = IF E.ev = "brk" THEN SubSeq(ls, 1, Len(ls) - 1) ELSE [ls EXCEPT ![Len(ls)].st = 1]]
                /\ UNCHANGED <<stack, pend, lastret, lastfall>>
        [] E.ev = "stop" ->
-            /\ loops' = [loops EXCEPT ![Len(loops)] = 0] /\ fails' = NoDlv(fails)
-            /\ UNCHANGED <<acts, stack, pend, lastret, lastfall>>
+            \* the loop ends; in the straight-line function s the inner loop j is the last statement of the body of loop i,
+            \* so the enclosing iteration of i ends here too (its #endloop follows without an event of its own)
+            LET ls == loops[Len(loops)]  lp == ls[Len(ls)]
+                rest == SubSeq(ls, 1, Len(ls) - 1)
+                outerEnds == lp.var = "j" /\ rest # <<>>
+                S == Process(acts, stack, IF outerEnds THEN EndOne(rest[Len(rest)]) ELSE <<>>)
+            IN /\ acts' = S.A /\ fails' = S.fails
+               /\ loops' = [loops EXCEPT ![Len(loops)] = IF outerEnds THEN [rest EXCEPT ![Len(rest)].st = 1] ELSE rest]
+               /\ UNCHANGED <<stack, pend, lastret, lastfall>>
+       [] E.ev \in {"sval", "slast"} ->
+            \* straight-line function s: a at top level, b in the i loop, c in the j loop (the last statement of j's body:
+            \* the iteration of j ends right after it); slast is the function's last statement
+            LET a == Top(stack)
+                ls == loops[Len(loops)]
+                depth == Len(ls)
+                var == IF depth = 0 THEN "a" ELSE IF depth = 1 THEN "b" ELSE "c"
+                steps == << B(var, E.val, {}, TRUE, TRUE, "") >> \o
+                         (IF depth = 2 THEN EndOne(ls[2]) ELSE <<>>) \o
+                         (IF E.ev = "slast" THEN << B("#value", NoneV, {}, FALSE, TRUE, "falloff"), B("#exit", TrueV, {"exit"}, TRUE, FALSE, ""), X >> ELSE <<>>)
+                S == Process(acts, stack, steps)
+            IN /\ acts' = S.A /\ fails' = S.fails
+               /\ IF E.ev = "slast"
+                  THEN /\ stack' = SubSeq(stack, 1, Len(stack) - 1) /\ loops' = SubSeq(loops, 1, Len(loops) - 1)
+                       /\ lastret' = LastVal(S.A, a, "#value") /\ lastfall' = TRUE
+                  ELSE /\ loops' = IF depth = 2 THEN [loops EXCEPT ![Len(loops)][2].st = 1] ELSE loops
+                       /\ UNCHANGED <<stack, lastret, lastfall>>
+               /\ UNCHANGED pend
        [] E.ev \in {"ret", "end"} ->
             LET a == Top(stack)
                 first == IF E.ev = "ret" THEN B("#value", E.val, {}, FALSE, TRUE, "")
@@ -223,7 +254,7 @@ Step ==
                /\ stack' = SubSeq(stack, 1, Len(stack) - 1) /\ loops' = SubSeq(loops, 1, Len(loops) - 1)
                /\ lastret' = LastVal(S.A, a, "#value") /\ lastfall' = (E.ev = "end")
                /\ UNCHANGED pend
-       [] E.ev = "raise" ->
+       [] E.ev \in {"raise", "sraise"} ->
             LET n == RaisePopCount(acts, stack)
                 S == Process(acts, stack, RaiseSteps(SubSeq(loops, Len(loops) - n + 1, Len(loops)), n, E.val))
             IN /\ acts' = S.A /\ fails' = S.fails
